@@ -72,8 +72,16 @@ class C02Scenario(ChangeScenario):
         resume_leaves = {i for h in resume_ids for i in [h] + self.children(h) if not self.children(i)}   # a parent's own return is no success yet
         resumed: dict[tuple[str, str, str], float] = {}   # (process, uid, resume handler) -> when it succeeded
 
+        timeout = float((self.params.get('settings') or {}).get('persistence__consistency_timeout', 5.0))
+        own_rv_at: dict[str, float] = {}          # ... and when it was returned
+
+        def stale_is_carveout(p: dict, t: float) -> bool:
+            """A handler on a view older than the operator's own last write: the statement's carve-out if the echo has been outstanding
+            for the whole consistency timeout - and the very thing that must not happen before that."""
+            return t >= own_rv_at.get(p.get('name'), float('-inf')) + timeout - 1e-9
+
         for t, k, p in env.obs:
-            if k == 'call' and p.get('rv') is not None and int(p['rv']) < own_rv.get(p.get('name'), 0):
+            if k == 'call' and p.get('rv') is not None and int(p['rv']) < own_rv.get(p.get('name'), 0) and stale_is_carveout(p, t):
                 disturbed = True   # a stale view (the echo was later than the consistency timeout): the statement's carve-out
             if k == 'call' and p['id'] in resume_leaves and p['outcome'].split(',')[0] == 'ok':
                 # (e) a resume handler's recorded success holds for the process, whatever cause the cycle continues under
@@ -89,7 +97,9 @@ class C02Scenario(ChangeScenario):
                 continue
             if k == 'srv' and p.get('rid') in post_rv and p['verb'] in ('serve', 'respond'):
                 name = p['path'].rstrip('/').split('/')[-1 if not p['path'].endswith('/status') else -2]
-                own_rv[name] = max(own_rv.get(name, 0), post_rv[p['rid']])
+                if post_rv[p['rid']] > own_rv.get(name, 0):
+                    own_rv[name] = post_rv[p['rid']]
+                    own_rv_at[name] = t
                 continue
             if k in ('deliver', 'write'):
                 for cyc in cycles.values():
@@ -109,7 +119,7 @@ class C02Scenario(ChangeScenario):
                     out.append(self.viol(env, 'retry-mismatch',
                                          f"t={t}: handler {hid} invoked with retry={p['retry']} but the view records {want} attempts",
                                          clause='b'))
-                if int(p['rv']) < own_rv.get(p['name'], 0):
+                if int(p['rv']) < own_rv.get(p['name'], 0) and stale_is_carveout(p, t):
                     disturbed = True   # a stale view: the echo was later than the consistency timeout
                 cyc = cycles.get(uid)
                 if cyc is None or cyc['reason'] != reason or (cyc.get('closing') and cyc.get('step_over')):
@@ -286,6 +296,14 @@ def scenarios(tier: str) -> tuple[list[C02Scenario], list[C02Scenario], list[C02
             plain.append(C02Scenario(handlers=handlers, lifecycle=lc, user=user, settings=settings, horizon=40.0,
                                      delays=False, early_user=False, time_dev=False))
             timing.append(C02Scenario(handlers=handlers, lifecycle=lc, user=user, settings=settings, horizon=40.0))
+    # 9. several foreign writes land between the view a step was computed from and the step's own PATCH (handlers of one step that each
+    # touch the object through another client): their events reach the operator before the echo of its PATCH, one after the other
+    for lc in ('all_at_once', 'one_by_one'):
+        for s1, s2 in ((['ok+status1'], ['ok+label1']), (['ok+status1'], ['temp', 'ok+label1']), (['ok+label1', ], ['ok+status2'])):
+            handlers = [dict(id='c1', on='create', script=s1, backoff=3), dict(id='c2', on='create', script=s2, backoff=3),
+                        dict(id='u1', on='update', script=s1, backoff=3), dict(id='u2', on='update', script=s2, backoff=3)]
+            plain.append(C02Scenario(handlers=handlers, lifecycle=lc, user=base_user + [(20.0, 'spec', 'a', 2)], settings=settings, horizon=45.0,
+                                     delays=False, early_user=False, time_dev=False))
     # 6b. ... and the resume handler has sub-handlers: one recorded as done, its sibling between retries, when the change supersedes the cause
     for lc in ('asap', 'all_at_once'):
         for sb in (['temp', 'ok'], ['temp', 'temp', 'ok']):
